@@ -563,18 +563,17 @@ func SnakeToUpperCamel(s string) string {
 }
 
 // GenerateFlattenedFields inlines child message fields at the parent level with optional prefix.
+// The flattened child is a message field and may be unset, in which case none of its members is
+// on the wire: every inlined member is optional in the parent.
 func GenerateFlattenedFields(p Printer, childMsg *protogen.Message, prefix string) {
 	for _, childField := range childMsg.Fields {
 		jsonName := prefix + childField.Desc.JSONName()
 		tsType := TSFieldType(childField)
 
-		//nolint:gocritic // if-else chain is clearer than switch for distinct boolean checks
 		if annotations.IsNullableField(childField) {
-			p("  %s: %s | null;", jsonName, tsType)
-		} else if IsOptionalField(childField) {
-			p("  %s?: %s;", jsonName, tsType)
+			p("  %s?: %s | null;", jsonName, tsType)
 		} else {
-			p("  %s: %s;", jsonName, tsType)
+			p("  %s?: %s;", jsonName, tsType)
 		}
 	}
 }
